@@ -40,6 +40,9 @@ Apply(op, a, mm) ==
       [] op = "getwithmap" -> <<mm, <<LET ks == Asc({a[i] : i \in 1..Len(a)} \cap Dom(mm)) IN [i \in 1..Len(ks) |-> <<ks[i], mm[ks[i]]>>]>>>>
       \* Map(fn) with fn = "add 100 to every value and report the pairs seen": one atomic read-modify-write
       [] op = "mapadd" -> <<[k \in K |-> IF mm[k] # 0 THEN mm[k] + 100 ELSE 0], <<Pairs(mm)>>>>
+      \* Map(fn) with callbacks that change the number of keys: insert a key / delete everything
+      [] op = "mapins" -> <<[mm EXCEPT ![a[1]] = a[2]], <<Pairs(mm)>>>>
+      [] op = "mapdelall" -> <<[k \in K |-> 0], <<Pairs(mm)>>>>
       [] op = "clear" -> <<[k \in K |-> 0], <<>>>>
 
 Init == /\ l = 1 /\ m = [k \in K |-> 0] /\ st = [t \in T |-> Idle] /\ TLCSet(1, 0)
